@@ -31,6 +31,17 @@ def search(pid, fl):
     g = next((g for g in _groups() if fl.fn in g['covers']), None)
     if g is None:
         return dict(found=False, text='no executable oracle is registered for %s (cex/*.rs); no failing input searched' % fl.fn)
+    return run_group(g)
+
+
+def groups_for_unit(unit_name):
+    """oracle groups that cover a function verified (//@fn) in the given unit"""
+    t = open(os.path.join(VERIF, 'contracts', unit_name + '.vtmpl')).read()
+    fns = set(re.findall(r'^//@fn (\S+)', t, re.M))
+    return [g for g in _groups() if fns & set(g['covers'])]
+
+
+def run_group(g):
     if g['file'] in _cache:
         return _cache[g['file']]
     d = tempfile.mkdtemp(prefix='jammdb-verif-cex-')
